@@ -382,3 +382,28 @@ M('c18-require-accepted-tests-closed-property', 'C18', 'R7', WS,
             raise errors.WebSocketDisconnected(self._close_code)
 
     def _translate_webserver_error""")
+
+# ------------------------------------------------------------------ R6 over the done/pending sets returned by asyncio.wait() (wave 6, s6-c18-3)
+_WAIT_OLD = """                await asyncio.wait(
+                    [pop_message_waiter, self._pump_task],"""
+_WAIT_SETS = """                done, pending = await asyncio.wait(
+                    {pop_message_waiter, self._pump_task},"""
+_END_TEST_OLD = "            if not pop_message_waiter.done():"
+# the seed: both futures can be done when the receiver wakes (message appended, disconnect pulled, pump finished in one step)
+M2('c18-receive-end-on-task-in-done-set', 'C18', 'R6', [
+    {'file': WS, 'old': _WAIT_OLD, 'new': _WAIT_SETS},
+    {'file': WS, 'old': _END_TEST_OLD, 'new': "            if self._pump_task in done:"},
+], also=('C17',))
+M2('c18-receive-end-on-task-not-in-pending-set', 'C18', 'R6', [
+    {'file': WS, 'old': _WAIT_OLD, 'new': _WAIT_SETS},
+    {'file': WS, 'old': _END_TEST_OLD, 'new': "            if self._pump_task not in pending:"},
+], also=('C17',))
+M2('c18-receive-end-on-task-in-done-or-waiter-pending', 'C18', 'R6', [
+    {'file': WS, 'old': _WAIT_OLD, 'new': _WAIT_SETS},
+    {'file': WS, 'old': _END_TEST_OLD, 'new': "            if self._pump_task in done or pop_message_waiter in pending:"},
+], also=('C17',))
+# polarity slip: end of stream is reported exactly when a message WAS announced
+M2('c18-receive-end-when-waiter-in-done-set', 'C18', 'R6', [
+    {'file': WS, 'old': _WAIT_OLD, 'new': _WAIT_SETS},
+    {'file': WS, 'old': _END_TEST_OLD, 'new': "            if pop_message_waiter in done:"},
+], also=('C17',))
